@@ -750,33 +750,53 @@ func TestVerifC17(t *testing.T) {
 		r.Finish(false)
 		return
 	}
-	nk, nv, depth := 7, 2, 5
+	type phase struct{ nk, nv, depth int }
+	phases := []phase{{7, 2, 5}}
 	if r.Thorough() {
-		nk, nv, depth = 9, 3, 5
+		phases = []phase{{9, 3, 4}, {7, 2, 6}}
 	}
-	alpha := &c17Alphabet{keys: c17AllKeys[:nk], vals: c17AllVals[:nv]}
-	r.Rule(fmt.Sprintf("BFS over histories of <= %d operations on the real bytes trie and object trie over a MapDB; alphabet (%d ops): Set over %d keys (hex %s) x %d values (1-byte and 40-byte), Delete per key, GetSnapshot->stash, Reset(stash), stash.Flush, reload from stash hash, ClearCache of mutable / stash, Get of every key. At the end of every history: Get of every key, Empty, Hash (canonicity table model<->root, shared by all histories and both flavours), Iterator, Filter for %d prefixes, on a fresh snapshot, on the stashed snapshot, on a trie reopened from the root hash after Flush, and again after ClearCache. Distinct non-trivial = distinct canonical state (model maps + shape and node states of the real node graphs incl. sharing + set of stored node hashes)",
-		depth, alpha.nops(), nk, fmt.Sprintf("%x", alpha.keys), nv, len(c17Prefixes)))
+	var rule []string
+	for _, ph := range phases {
+		a := &c17Alphabet{keys: c17AllKeys[:ph.nk], vals: c17AllVals[:ph.nv]}
+		rule = append(rule, fmt.Sprintf("<= %d operations over %d ops (Set over %d keys hex %x x %d values, Delete per key, %d trie-level ops)", ph.depth, a.nops(), ph.nk, a.keys, ph.nv, c17NumSpecial))
+	}
+	r.Rule("BFS over operation histories on the real bytes trie and object trie over a MapDB, one search per bound: " + strings.Join(rule, "; ") +
+		". Values: 1 byte (embedded nodes) and 40 bytes (hashed nodes). Trie-level ops: GetSnapshot->stash, Reset(stash), stash.Flush, reload from stash hash, ClearCache of mutable / stash, Get of every key, and three macros (snapshot+flush, +reload, +ClearCache). At the end of every history: Get of every key, Empty, Hash (canonicity table model<->root shared by all histories and both flavours), Iterator and Filter for " + strconv.Itoa(len(c17Prefixes)) +
+		" prefixes on a fresh snapshot and on a trie reopened from the root hash after Flush; Get/Hash/Iterator on the stashed snapshot and again after ClearCache. Distinct non-trivial = distinct canonical state (model maps + shape and node states of the real node graphs incl. sharing + set of stored node hashes)")
 	r.Assume("values are non-empty (the trie does not support empty values: a branch value of length 0 is dropped on decode)",
 		"single goroutine; database = MapDB that never fails; no node cache attached",
 		"states are de-duplicated on a 128-bit hash of the canonical state string",
 		"one stash slot: at most one older snapshot is kept alive at a time")
 	var samples []c17Case
-	st := pbfs.Run(pbfs.Config{
-		Roots: [][]byte{{0}, {1}}, Ops: alpha.nops(), MaxDepth: depth, Batch: 1024,
-		Step: func(h []byte) (string, bool) { return c17Run(sh, alpha, h) },
-		Stop: func() bool { return r.Expired() || r.Violations() > 20 },
-		OnNew: func(h []byte, key string, d int) {
-			r.Nontrivial(key)
-			if d == depth && len(samples) < 3 && strings.Contains(key, "H") && strings.Contains(key, "F") {
-				c := c17Case{Flavour: int(h[0]), Keys: nk, Vals: nv}
-				for _, o := range h[1:] {
-					c.Ops = append(c.Ops, int(o))
+	var total pbfs.Stats
+	total.Complete = true
+	var perPhase []map[string]interface{}
+	for _, ph := range phases {
+		alpha := &c17Alphabet{keys: c17AllKeys[:ph.nk], vals: c17AllVals[:ph.nv]}
+		ph := ph
+		st := pbfs.Run(pbfs.Config{
+			Roots: [][]byte{{0}, {1}}, Ops: alpha.nops(), MaxDepth: ph.depth, Batch: 1024,
+			Step: func(h []byte) (string, bool) { return c17Run(sh, alpha, h) },
+			Stop: func() bool { return r.Expired() || r.Violations() > 20 },
+			OnNew: func(h []byte, key string, d int) {
+				r.Nontrivial(key)
+				if d == ph.depth && len(samples) < 4 && strings.Contains(key, "H") && strings.Contains(key, "F") && h[len(h)-1] < byte(ph.nk*ph.nv+ph.nk) {
+					c := c17Case{Flavour: int(h[0]), Keys: ph.nk, Vals: ph.nv}
+					for _, o := range h[1:] {
+						c.Ops = append(c.Ops, int(o))
+					}
+					samples = append(samples, c)
 				}
-				samples = append(samples, c)
-			}
-		},
-	})
+			},
+		})
+		total.States += st.States
+		total.Transitions += st.Transitions
+		total.Replays += st.Replays
+		total.Complete = total.Complete && st.Complete
+		perPhase = append(perPhase, map[string]interface{}{"keys": ph.nk, "values": ph.nv, "ops": alpha.nops(), "depth_bound": ph.depth,
+			"depth_completed": st.DepthDone, "complete": st.Complete, "states": st.States, "transitions": st.Transitions, "new_states_per_depth": st.PerDepth})
+	}
+	st := total
 	for _, c := range samples {
 		r.Sample(map[string]interface{}{"history": c.String(), "ops": c.Ops})
 	}
@@ -787,9 +807,7 @@ func TestVerifC17(t *testing.T) {
 	r.States(st.States)
 	r.Transitions(st.Transitions)
 	r.Traces(st.Replays)
-	r.Set("depth_bound", depth)
-	r.Set("depth_completed", st.DepthDone)
-	r.Set("new_states_per_depth", st.PerDepth)
+	r.Set("searches", perPhase)
 	r.Set("distinct_maps_in_canonicity_table", len(sh.byMap))
 	r.Set("canonicity_table_checks", sh.tableChecks)
 	r.Set("histories_ending_with_dirty_nodes_before_last_op", sh.inPlace)
